@@ -278,3 +278,35 @@ def wrap(e):
     if t == pt.TealType.none:
         return pt.Seq(e, I(1))
     return pt.Seq(pt.Pop(e), I(1))
+
+
+def confused(thunk, k):
+    """build the entry with its k-th leaf (in construction order) replaced by a leaf of the OTHER stack type:
+    an Int where a Bytes literal stood and the reverse.  -> (expr, number of leaves seen); raises what the
+    constructor raises"""
+    global I, By
+    cnt = [0]
+
+    def I2(*a, **kw):
+        i = cnt[0]
+        cnt[0] += 1
+        return pt.Bytes("base16", "0x0102") if i == k else pt.Int(*a, **kw)
+
+    def By2(*a, **kw):
+        i = cnt[0]
+        cnt[0] += 1
+        return pt.Int(7) if i == k else pt.Bytes(*a, **kw)
+    old = (I, By)
+    I, By = I2, By2
+    try:
+        e = thunk()
+    finally:
+        I, By = old
+    return e, cnt[0]
+
+
+def leaf_count(thunk):
+    try:
+        return confused(thunk, -1)[1]
+    except Exception:
+        return 0
